@@ -337,7 +337,8 @@ func runC14(c *ev.Ctx) {
 			variants = append(variants, &c14run{parents: j.parents, order: append([]int{}, order...), limit: big, failChk: map[int]bool{r.Intn(n): true}})
 			dup := append([]int{}, order...)
 			at := r.Intn(n + 1)
-			dup = append(dup[:at:at], append([]int{order[r.Intn(n)]}, dup[at:]...)...)
+			dupEv := order[r.Intn(n)]
+			dup = append(dup[:at:at], append([]int{dupEv}, dup[at:]...)...)
 			variants = append(variants, &c14run{parents: j.parents, order: dup, limit: big})
 			variants = append(variants, &c14run{parents: j.parents, order: dup, limit: big, failProc: map[int]bool{r.Intn(n): true}})
 			variants = append(variants, &c14run{parents: j.parents, order: append([]int{}, order...), limit: dag.Metric{Num: idx.Event(r.Intn(3)), Size: size}})
@@ -348,6 +349,13 @@ func runC14(c *ev.Ctx) {
 				ext.extConn[a] = a + 1 + r.Intn(n-a-1)
 			}
 			variants = append(variants, ext)
+			// the event that is pushed twice becomes connected through another path while some other event is processed
+			if n >= 2 {
+				other := r.Intn(n)
+				if other != dupEv {
+					variants = append(variants, &c14run{parents: j.parents, order: dup, limit: big, extConn: map[int]int{other: dupEv}})
+				}
+			}
 			variants = append(variants, &c14run{parents: j.parents, order: append([]int{}, order...), limit: big, nilReleased: true, failProc: map[int]bool{r.Intn(n): true}})
 			variants = append(variants, &c14run{parents: j.parents, order: append([]int{}, order...), limit: big, nilReleased: true, failChk: map[int]bool{r.Intn(n): true}})
 			for vi, run := range variants {
